@@ -2555,6 +2555,15 @@ def m_char_case(ctx, args, callee):
     return ListIter([BitVecVal(ord(x), 32) for x in t])
 
 
+@model(r'^(core::)?str::<impl str>::eq_ignore_ascii_case$|^std::string::String::eq_ignore_ascii_case$')
+def m_eq_ignore_ascii_case(ctx, args, callee):
+    a = as_str(ctx, args[0]); b = as_str(ctx, args[1])
+    if isinstance(a, SpecialStr) or isinstance(b, SpecialStr) or a.term is not None or b.term is not None:
+        raise Unmodelled('eq_ignore_ascii_case on a special / z3 string')
+    fold = lambda t: ''.join(c.lower() if c.isascii() else c for c in t)
+    return lift_bool(ctx, lambda x, y: fold(x) == fold(y), a, b)
+
+
 # --- chars
 @model(r'^(core::)?str::<impl str>::chars$')
 def m_chars(ctx, args, callee):
